@@ -252,6 +252,10 @@ func strideRuleN(p *core.Program, r *core.Report, rule string, targets []strideT
 				continue
 			}
 			pos := p.Pos(mv.Instr.Pos())
+			if f.kind == "all" && (mv.Dst.W != 0 || mv.Src.W != 0) {
+				bad = fmt.Sprintf("ordinate move at %s copies the ordinates %d..%d only (a counter bounded by a constant, not by the stride): whole-coordinate code must carry every ordinate of the layout", pos, mv.Dst.C, mv.Dst.C+mv.Dst.W)
+				continue
+			}
 			if mv.DstIx == mv.SrcIx {
 				continue
 			}
